@@ -445,4 +445,183 @@ theorem step_left_one (L a b : Nat) (ver : List Nat) (i0 : Nat) (h0 : 1 ≤ i0) 
   rw [e4]
   simp
 
+/-! ### the schedule as two explicit phases -/
+
+theorem zip3_replicate (xs ys : List Nat) (p q : Bool) (u v : Bool × Bool) :
+    zip3 (xs ++ ys) (List.replicate xs.length p ++ List.replicate ys.length q)
+      (List.replicate xs.length u ++ List.replicate ys.length v)
+    = xs.map (fun i => (i, p, u)) ++ ys.map (fun i => (i, q, v)) := by
+  induction xs with
+  | nil =>
+    simp only [List.nil_append, List.length_nil, List.replicate_zero, List.map_nil]
+    induction ys with
+    | nil => rfl
+    | cons y ys ih => simp only [List.length_cons, List.replicate_succ, zip3, ih, List.map_cons]
+  | cons x xs ih =>
+    simp only [List.cons_append, List.length_cons, List.replicate_succ, zip3, ih, List.map_cons]
+
+theorem schedule_finite (L n : Nat) :
+    Gen.schedule true L n
+      = (List.range' 0 (L - n)).map (fun i => (i, true, (true, false)))
+        ++ ((List.range' 1 (L - n)).reverse).map (fun i => (i, false, (false, true))) := by
+  have h1 : (pyRange 0 (L - n)).length = L - n := by simp [pyRange]
+  have h2 : (pyRangeDown (L - n) 0).length = L - n := by simp [pyRangeDown]
+  have := zip3_replicate (pyRange 0 (L - n)) (pyRangeDown (L - n) 0) true false (true, false) (false, true)
+  rw [h1, h2] at this
+  simp only [Gen.schedule, if_true, Gen.i0sFinite, Gen.moveRightFinite, Gen.updateLPRPFinite]
+  rw [this]
+  simp [pyRange, pyRangeDown]
+
+theorem runSteps_append (n : Nat) (e : Env) (l1 l2 : List (Nat × Bool × (Bool × Bool))) (e1 : Env)
+    (g1 : List StepLog) (h : runSteps n e l1 = some (e1, g1)) :
+    runSteps n e (l1 ++ l2) = (runSteps n e1 l2).map (fun r => (r.1, g1 ++ r.2)) := by
+  induction l1 generalizing e g1 with
+  | nil =>
+    simp only [runSteps, Option.some.injEq, Prod.mk.injEq] at h
+    obtain ⟨rfl, rfl⟩ := h
+    cases hh : runSteps n e l2 <;> simp [hh]
+  | cons st l1 ih =>
+    simp only [List.cons_append, runSteps] at h ⊢
+    cases hs : step n e st with
+    | none => simp [hs] at h
+    | some r =>
+      obtain ⟨e', lg⟩ := r
+      simp only [hs] at h ⊢
+      cases hr : runSteps n e' l1 with
+      | none => simp [hr] at h
+      | some r2 =>
+        obtain ⟨e'', lgs⟩ := r2
+        simp only [hr, Option.some.injEq, Prod.mk.injEq] at h
+        obtain ⟨rfl, rfl⟩ := h
+        rw [ih e' lgs hr]
+        cases hh : runSteps n e'' l2 <;> simp [hh]
+
+/-- a step read environments that contain *all* sites to the left / right, all at their current versions -/
+def Good (L n : Nat) (l : StepLog) : Prop :=
+  l.freshL = l.readLP.deps.length ∧ l.readLP.deps.length = l.i0 ∧
+  l.freshR = l.readRP.deps.length ∧ l.readRP.deps.length = L - 1 - (l.i0 + n - 1)
+
+theorem right_phase_two (L : Nat) (m : Nat) : ∀ (k a b : Nat) (ver : List Nat), k + m + 2 ≤ L → a ≤ k + 1 → k ≤ b → b < L →
+    ∃ ver' logs, runSteps 2 (canon L a b ver) ((List.range' k m).map (fun i => (i, true, (true, false))))
+        = some (if m = 0 then canon L a b ver else canon L (k + m) (k + m + 1) ver', logs) ∧
+      logs.length = m ∧ ∀ l ∈ logs, Good L 2 l := by
+  induction m with
+  | zero => intro k a b ver _ _ _ _; exact ⟨ver, [], rfl, rfl, fun _ h => nomatch h⟩
+  | succ m ih =>
+    intro k a b ver hk ha hb hbL
+    obtain ⟨ver', logs, h1, h2, h3⟩ := ih (k + 1) (k + 1) (k + 2) (bump2 ver k) (by omega) (by omega) (by omega) (by omega)
+    refine ⟨if m = 0 then bump2 ver k else ver',
+      ⟨k, true, partL ver k, partR L ver (k + 1), k, L - 1 - (k + 1)⟩ :: logs, ?_, by simp [h2], ?_⟩
+    · simp only [List.range'_succ, List.map_cons, runSteps, step_right_two L a b ver k (by omega) ha hb hbL, h1]
+      by_cases hm : m = 0
+      · subst hm; simp
+      · have e : k + 1 + m = k + (m + 1) := by omega
+        simp [hm, e]
+    · intro l hl
+      rcases List.mem_cons.1 hl with rfl | hl
+      · simp [Good, partL_deps_length, partR_deps_length]
+      · exact h3 l hl
+
+theorem left_phase_two (L : Nat) (m : Nat) : ∀ (a b : Nat) (ver : List Nat), m + 1 < L → a ≤ m + 1 → m ≤ b → b < L →
+    ∃ ver' logs, runSteps 2 (canon L a b ver) (((List.range' 1 m).reverse).map (fun i => (i, false, (false, true))))
+        = some (if m = 0 then canon L a b ver else canon L 0 1 ver', logs) ∧
+      logs.length = m ∧ ∀ l ∈ logs, Good L 2 l := by
+  induction m with
+  | zero => intro a b ver _ _ _ _; exact ⟨ver, [], rfl, rfl, fun _ h => nomatch h⟩
+  | succ m ih =>
+    intro a b ver hk ha hb hbL
+    obtain ⟨ver', logs, h1, h2, h3⟩ := ih m (m + 1) (bump2 ver (m + 1)) (by omega) (by omega) (by omega) (by omega)
+    refine ⟨if m = 0 then bump2 ver (m + 1) else ver',
+      ⟨m + 1, false, partL ver (m + 1), partR L ver (m + 1 + 1), m + 1, L - 1 - (m + 1 + 1)⟩ :: logs, ?_, by simp [h2], ?_⟩
+    · have e : (List.range' 1 (m + 1)).reverse = (m + 1) :: (List.range' 1 m).reverse := by
+        rw [List.range'_1_concat, List.reverse_append]; simp [Nat.add_comm]
+      simp only [e, List.map_cons, runSteps, step_left_two L a b ver (m + 1) (by omega) (by omega) ha hb hbL,
+        Nat.add_sub_cancel, h1]
+      by_cases hm : m = 0
+      · subst hm; simp
+      · simp [hm]
+    · intro l hl
+      rcases List.mem_cons.1 hl with rfl | hl
+      · simp [Good, partL_deps_length, partR_deps_length]
+      · exact h3 l hl
+
+theorem right_phase_one (L : Nat) (m : Nat) : ∀ (k a b : Nat) (ver : List Nat), k + m + 1 ≤ L → a ≤ k + 1 → k ≤ b → b < L →
+    ∃ ver' logs, runSteps 1 (canon L a b ver) ((List.range' k m).map (fun i => (i, true, (true, false))))
+        = some (if m = 0 then canon L a b ver else canon L (k + m) (k + m) ver', logs) ∧
+      logs.length = m ∧ ∀ l ∈ logs, Good L 1 l := by
+  induction m with
+  | zero => intro k a b ver _ _ _ _; exact ⟨ver, [], rfl, rfl, fun _ h => nomatch h⟩
+  | succ m ih =>
+    intro k a b ver hk ha hb hbL
+    obtain ⟨ver', logs, h1, h2, h3⟩ := ih (k + 1) (k + 1) (k + 1) (bump2 ver k) (by omega) (by omega) (by omega) (by omega)
+    refine ⟨if m = 0 then bump2 ver k else ver',
+      ⟨k, true, partL ver k, partR L ver k, k, L - 1 - k⟩ :: logs, ?_, by simp [h2], ?_⟩
+    · simp only [List.range'_succ, List.map_cons, runSteps, step_right_one L a b ver k (by omega) ha hb hbL, h1]
+      by_cases hm : m = 0
+      · subst hm; simp
+      · have e : k + 1 + m = k + (m + 1) := by omega
+        simp [hm, e]
+    · intro l hl
+      rcases List.mem_cons.1 hl with rfl | hl
+      · simp [Good, partL_deps_length, partR_deps_length]
+      · exact h3 l hl
+
+theorem left_phase_one (L : Nat) (m : Nat) : ∀ (a b : Nat) (ver : List Nat), m < L → a ≤ m → m - 1 ≤ b → b < L →
+    ∃ ver' logs, runSteps 1 (canon L a b ver) (((List.range' 1 m).reverse).map (fun i => (i, false, (false, true))))
+        = some (if m = 0 then canon L a b ver else canon L 0 0 ver', logs) ∧
+      logs.length = m ∧ ∀ l ∈ logs, Good L 1 l := by
+  induction m with
+  | zero => intro a b ver _ _ _ _; exact ⟨ver, [], rfl, rfl, fun _ h => nomatch h⟩
+  | succ m ih =>
+    intro a b ver hk ha hb hbL
+    obtain ⟨ver', logs, h1, h2, h3⟩ := ih m m (bump2 ver m) (by omega) (by omega) (by omega) (by omega)
+    refine ⟨if m = 0 then bump2 ver m else ver',
+      ⟨m + 1, false, partL ver (m + 1), partR L ver (m + 1), m + 1, L - 1 - (m + 1)⟩ :: logs, ?_, by simp [h2], ?_⟩
+    · have e : (List.range' 1 (m + 1)).reverse = (m + 1) :: (List.range' 1 m).reverse := by
+        rw [List.range'_1_concat, List.reverse_append]; simp [Nat.add_comm]
+      simp only [e, List.map_cons, runSteps, step_left_one L a b ver (m + 1) (by omega) (by omega) ha (by omega) hbL,
+        Nat.add_sub_cancel, h1]
+      by_cases hm : m = 0
+      · subst hm; simp
+      · simp [hm]
+    · intro l hl
+      rcases List.mem_cons.1 hl with rfl | hl
+      · simp [Good, partL_deps_length, partR_deps_length]
+      · exact h3 l hl
+
+/-- state between two sweeps -/
+def Between (L : Nat) (e : Env) : Prop := ∃ a b ver, e = canon L a b ver ∧ a ≤ 1 ∧ b < L
+
+theorem sweep_finite (L n : Nat) (hn : n = 1 ∨ n = 2) (hL : n + 1 ≤ L) (e : Env) (he : Between L e) :
+    ∃ e' logs, sweep n e = some (e', logs) ∧ Between L e' ∧ logs.length = 2 * (L - n) ∧ ∀ l ∈ logs, Good L n l := by
+  obtain ⟨a, b, ver, rfl, ha, hb⟩ := he
+  have hsch : sweep n (canon L a b ver) = runSteps n (canon L a b ver) (Gen.schedule true L n) := rfl
+  rw [hsch, schedule_finite]
+  rcases hn with rfl | rfl
+  · obtain ⟨v1, g1, r1, l1, f1⟩ := right_phase_one L (L - 1) 0 a b ver (by omega) (by omega) (by omega) hb
+    have hm : ¬ (L - 1 = 0) := by omega
+    simp only [hm, if_false, Nat.zero_add] at r1
+    obtain ⟨v2, g2, r2, l2, f2⟩ := left_phase_one L (L - 1) (L - 1) (L - 1) v1 (by omega) (by omega) (by omega) (by omega)
+    simp only [hm, if_false] at r2
+    rw [runSteps_append 1 _ _ _ _ _ r1, r2]
+    refine ⟨canon L 0 0 v2, g1 ++ g2, rfl, ⟨0, 0, v2, rfl, by omega, by omega⟩, by simp [l1, l2]; omega, ?_⟩
+    intro l hl
+    rcases List.mem_append.1 hl with h | h
+    · exact f1 l h
+    · exact f2 l h
+  · obtain ⟨v1, g1, r1, l1, f1⟩ := right_phase_two L (L - 2) 0 a b ver (by omega) (by omega) (by omega) hb
+    obtain ⟨v2, g2, r2, l2, f2⟩ := left_phase_two L (L - 2) (if L - 2 = 0 then a else 0 + (L - 2))
+      (if L - 2 = 0 then b else 0 + (L - 2) + 1) (if L - 2 = 0 then ver else v1)
+      (by omega) (by split <;> omega) (by split <;> omega) (by split <;> omega)
+    by_cases hm : L - 2 = 0
+    · -- L = 2 is excluded by L ≥ 3
+      omega
+    · simp only [hm, if_false] at r1 r2
+      rw [runSteps_append 2 _ _ _ _ _ r1, r2]
+      refine ⟨canon L 0 1 v2, g1 ++ g2, rfl, ⟨0, 1, v2, rfl, by omega, by omega⟩, by simp [l1, l2]; omega, ?_⟩
+      intro l hl
+      rcases List.mem_append.1 hl with h | h
+      · exact f1 l h
+      · exact f2 l h
+
 end TenpyModel.C13
